@@ -110,8 +110,21 @@ def snapshot(pred, depth_cap=DEPTH_CAP):
     return (type(pred).__name__, tuple(items))
 
 
+def pred_key(p, depth=0):
+    """address-free structural description of a predicate (its initial, unmutated form is what identifies it)"""
+    d = getattr(p, "__dict__", None)
+    if d is None or depth > 5:
+        return f"{type(p).__name__}:{p!s}" if d is None else type(p).__name__
+    parts = []
+    for k in sorted(d):
+        v = d[k]
+        parts.append(f"{k}={pred_key(v, depth + 1) if hasattr(v, 'accept') else v!r}")
+    return f"{type(p).__name__}({', '.join(parts)})"
+
+
 def dfa_index(dfa):
-    """stable enumeration of DFA states and of predicate objects"""
+    """enumeration of DFA states and predicate objects that does NOT depend on the order of the transition lists
+    (that order follows set iteration and can differ between two constructions of the same automaton)"""
     order, preds = {}, {}
     stack = [dfa.start]
     while stack:
@@ -119,9 +132,10 @@ def dfa_index(dfa):
         if id(st) in order:
             continue
         order[id(st)] = len(order)
-        for p, tgt in st.transition:
+        trs = sorted(st.transition, key=lambda t: pred_key(t[0]))
+        for p, tgt in trs:
             preds.setdefault(id(p), len(preds))
-        for p, tgt in reversed(st.transition):
+        for p, tgt in reversed(trs):
             stack.append(tgt)
     return order, preds
 
